@@ -187,6 +187,35 @@ func trunc(s string, n int) string {
 // still see a failure, while checks that care about crashes look at Panic).
 func (s *Server) Do(args ...string) (rep Reply) {
 	atomic.AddInt64(&s.Commands, 1)
+	// The handler runs on a goroutine of its own so that a command that never returns (a lock that is never
+	// released, a loop that never ends) is reported instead of hanging the check until its time-out.
+	done := make(chan Reply, 1)
+	go func() {
+		defer func() {
+			if r := recover(); r != nil {
+				done <- Reply{Panic: fmt.Sprintf("%v\n%s", r, debug.Stack()), Val: resp.Value{Kind: resp.Err, Str: fmt.Sprintf("PANIC %v", r)}}
+			}
+		}()
+		raw, err := s.DB.ExecuteCommand(args...)
+		if err != nil {
+			done <- Reply{Raw: raw, Val: resp.Value{Kind: resp.Err, Str: err.Error()}, Strict: true}
+			return
+		}
+		done <- Decode(raw)
+	}()
+	select {
+	case rep = <-done:
+		return rep
+	case <-time.After(Patience(HangTimeout)):
+		msg := fmt.Sprintf("HANG: %q did not return within %v", trunc(strings.Join(args, " "), 80), Patience(HangTimeout))
+		return Reply{Panic: msg, Val: resp.Value{Kind: resp.Err, Str: msg}}
+	}
+}
+
+// DoInline runs one command on the calling goroutine (no hang watchdog): for callers whose goroutine identity
+// matters (the schedule controller recognises its tasks by goroutine).
+func (s *Server) DoInline(args ...string) (rep Reply) {
+	atomic.AddInt64(&s.Commands, 1)
 	defer func() {
 		if r := recover(); r != nil {
 			rep = Reply{Panic: fmt.Sprintf("%v\n%s", r, debug.Stack()), Val: resp.Value{Kind: resp.Err, Str: fmt.Sprintf("PANIC %v", r)}}
@@ -198,6 +227,9 @@ func (s *Server) Do(args ...string) (rep Reply) {
 	}
 	return Decode(raw)
 }
+
+// HangTimeout is how long an embedded command may take before it is reported as hung (stretched by Patience).
+var HangTimeout = 30 * time.Second
 
 // Decode parses raw reply bytes strictly, falling back to the lenient reading that the non-protocol
 // checks use (the strictness itself is C12's business).
